@@ -569,6 +569,12 @@ def run_corrupt(ctx, mods, case):
     path = os.path.join(ctx.wd(), 'corrupt.env')
     data = bytes.fromhex(case['data'])
     put_file(path, data)
+    # CPython writes "SystemError: deallocated bytearray object has exported buffers"
+    # straight to fd 2 when a huge read fails with MemoryError: keep the run quiet
+    sys.stderr.flush()
+    saved = os.dup(2)
+    devnull = os.open(os.devnull, os.O_WRONLY)
+    os.dup2(devnull, 2)
     signal.alarm(10)
     try:
         obs = call_from_file(mods, path)
@@ -577,6 +583,9 @@ def run_corrupt(ctx, mods, case):
         return False
     finally:
         signal.alarm(0)
+        os.dup2(saved, 2)
+        os.close(saved)
+        os.close(devnull)
     ctx.count('corrupt_' + case['mut'])
     ctx.count('corrupt_outcome_' + obs[0] + ('_' + obs[1] if obs[0] == 'raise' else ''))
     if obs[0] == 'raise' and obs[1] in UNREADABLE:
